@@ -82,8 +82,9 @@ func (s *srvT) q(pql string) ([]interface{}, error) {
 // ---- recorded history of field s (single-section operations)
 
 type opIn struct {
-	kind     int // 0 set 1 clear 2 row
+	kind     int // 0 set 1 clear 2 row (the part of a Row read that one shard's fragment answers)
 	row, col uint64
+	shard    uint64
 }
 
 type history struct {
@@ -106,13 +107,16 @@ func colBit(c uint64) uint64 {
 	panic("unknown column")
 }
 
-// model of one row of a set field: state = bit mask over cols.
+// model of one row of ONE FRAGMENT of a set field: state = bit mask over the shard's cols.  A Row
+// query over two shards is one fragment.row critical section per shard (the executor maps over
+// shards), so it is recorded as one read per shard: across shards it is a multi-section read.
 var rowModel = porcupine.Model{
 	Partition: func(h []porcupine.Operation) [][]porcupine.Operation {
 		m := map[uint64][]porcupine.Operation{}
 		for _, o := range h {
-			r := o.Input.(opIn).row
-			m[r] = append(m[r], o)
+			in := o.Input.(opIn)
+			k := in.row*4 + in.shard
+			m[k] = append(m[k], o)
 		}
 		var out [][]porcupine.Operation
 		for _, v := range m {
@@ -163,7 +167,7 @@ func main() {
 	seconds := flag.Int("seconds", 45, "wall budget")
 	out := flag.String("out", "", "result file (JSON)")
 	flag.Parse()
-	res := &result{Counters: map[string]int{}}
+	res := &result{Counters: map[string]int{}, ReplayLines: []string{}, Panics: []string{}, NonLin: []string{}}
 	var cmu sync.Mutex
 	count := func(k string) { cmu.Lock(); res.Counters[k]++; cmu.Unlock() }
 	deadline := time.Now().Add(time.Duration(*seconds) * time.Second)
@@ -272,25 +276,26 @@ func runRound(seed int64, round int, res *result, count func(string)) {
 					rs, err := s.q(fmt.Sprintf("Set(%d, s=%d)", col, row))
 					t1 := now()
 					must(err)
-					hist.add(g, opIn{0, row, col}, rs[0].(bool), t0, t1)
+					hist.add(g, opIn{0, row, col, col / sw}, rs[0].(bool), t0, t1)
 					count("s.set")
 				case op < 8: // recorded Clear on s
 					t0 := now()
 					rs, err := s.q(fmt.Sprintf("Clear(%d, s=%d)", col, row))
 					t1 := now()
 					must(err)
-					hist.add(g, opIn{1, row, col}, rs[0].(bool), t0, t1)
+					hist.add(g, opIn{1, row, col, col / sw}, rs[0].(bool), t0, t1)
 					count("s.clear")
 				case op < 12: // recorded Row on s
 					t0 := now()
 					rs, err := s.q(fmt.Sprintf("Row(s=%d)", row))
 					t1 := now()
 					must(err)
-					var mask uint64
+					var mask [2]uint64
 					for _, c := range rs[0].(*pilosa.Row).Columns() {
-						mask |= colBit(c)
+						mask[c/sw] |= colBit(c)
 					}
-					hist.add(g, opIn{2, row, 0}, mask, t0, t1)
+					hist.add(g, opIn{2, row, 0, 0}, mask[0], t0, t1)
+					hist.add(g, opIn{2, row, 0, 1}, mask[1], t0, t1)
 					count("s.row")
 				case op < 14: // mutex move + multi-section read
 					_, err := s.q(fmt.Sprintf("Set(%d, m=%d)", cols[0], 1+r.Intn(2)))
@@ -426,7 +431,7 @@ func describe(ops []porcupine.Operation) string {
 	var ss []string
 	for _, o := range ops {
 		in := o.Input.(opIn)
-		ss = append(ss, fmt.Sprintf("c%d %s(%d,%d)=%v [%d,%d]", o.ClientId, []string{"Set", "Clear", "Row"}[in.kind], in.row, in.col, o.Output, o.Call, o.Return))
+		ss = append(ss, fmt.Sprintf("c%d %s(%d,%d;shard %d)=%v [%d,%d]", o.ClientId, []string{"Set", "Clear", "Row"}[in.kind], in.row, in.col, in.shard, o.Output, o.Call, o.Return))
 		if len(ss) > 60 {
 			break
 		}
